@@ -138,7 +138,7 @@ void run(Ctx &ctx, const std::string &w)
                     const int was = sh.writerOf[fileno].exchange(t + 1, vt::Rlx);
                     if (was != 0) sh.fail("storemap:two-writers", "threads " + std::to_string(was - 1) + " and " + std::to_string(t) + " both have anchor " + std::to_string(fileno) + " open for writing");
                     const long gen = nextGen.fetch_add(1, vt::Rlx) + 1;
-                    memcpy(a->key, key, sizeof(a->key)); // what Anchor::setKey() does (minus the Store::Root() lookup)
+                    a->setKey(ckey);
                     verif_canary_anchor_write(a, gen);
                     a->basics.swap_file_sz = 0;
                     int prev = -1;
